@@ -19,10 +19,10 @@ META = dict(
           'are compared with a recomputation from the branch list; event counts are reconciled with the final state. '
           'non-trivial = distinct (logic, argument) whose proof has >= 2 steps and >= 2 branches.'),
     assumptions=['observation is through the public step()/stat()/tree/stats API and the tableau event bus only'],
-    min_events={'quick': {'step_checks': 40000, 'finished_checks': 4000, 'logics': 57},
-                'thorough': {'step_checks': 800000, 'finished_checks': 80000, 'logics': 57}},
-    budget=dict(quick=420, thorough=3000),
-    unit_timeout=dict(quick=330, thorough=2400),
+    min_events={'quick': {'step_checks': 40000, 'finished_checks': 4000, 'logics': 52},
+                'thorough': {'step_checks': 800000, 'finished_checks': 80000, 'logics': 52}},
+    budget=dict(quick=1500, thorough=3000),
+    unit_timeout=dict(quick=900, thorough=3000),
 )
 
 NRANDOM = dict(quick=40, thorough=600)
